@@ -320,6 +320,26 @@ def run(chk):
                 raise ToolError(f"typeshare failed: {r['stderr'][-300:]}")
             col.add(f"split{k}", sha, {"mode": "single", "dim": "file-split", "features": features(tree), "lang": lang,
                                        "detail": f"items of tree {list(tree)} split {sname}"})
+    # overlapping directory arguments: a root given twice, and a root together with one of its own sub-directories. What typeshare
+    # makes of files it reaches twice is not the question here - only that it is the same in every run, whatever the thread count
+    for k, tree in enumerate(sample[:4 if thorough else 2]):
+        lang = langs[(k + 1) % 6]
+        if lang in ("kotlin", "swift", "scala") and any(t in ("C", "SC", "Conly") for t in tree):
+            lang = "typescript"
+        items = []
+        for i, t in enumerate(list(tree) * 4, 1):
+            items.append(f"#[typeshare]\npub struct Ov{i} {{ pub m: u32 }}\n")
+        files = {f"r{j % 2}/c{j % 5}/src/i{j}.rs": x for j, x in enumerate(items)}
+        d = os.path.join(work, f"ov{k}")
+        cli.make_tree(os.path.join(d, "src_root"), files)
+        roots = ["r0", "r0/c0", "r1", "r1", "r0/c2/src"]
+        for th in (1, 2, 3, 4, 8, 16):
+            for rep in range(3 if thorough else 2):
+                r, sha, _ = run_once(d, lang, "single", {"TYPESHARE_VERIF_THREADS": str(th)}, f"th{th}_{rep}", roots)
+                if r["exit"] not in ("ok", "error"):
+                    continue
+                col.add(f"overlap{k}", sha if r["exit"] == "ok" else "refused", {"mode": "single", "dim": "thread-count", "features": "overlapping-directory-arguments",
+                                                                                     "lang": lang, "detail": f"{len(items)} files, roots {roots}, threads {th} rep {rep}"})
     judge(chk, col)
 
 
